@@ -140,7 +140,9 @@ class Array(object):
         for p in self.content_paths():
             lines.append("content " + p)
         for d in self.disk_names():
-            lines.append("disk %s %s/" % (d, self.disk_dir(d)))
+            # "conf_names": a disk line under another name (and optionally another directory) than the harness's d<k>
+            nm, dr = (c.get("conf_names") or {}).get(d, (d, None))
+            lines.append("disk %s %s/" % (nm, dr or self.disk_dir(d)))
         if c.get("nohidden"):
             lines.append("nohidden")
         for r in c.get("rules", []):
